@@ -135,6 +135,29 @@ static void triple_body(int m, int n, int k, int pa, int pb)
 		CHECK(eq(A * sc, ms) && eq(sc * A, ms) && eq(A.Product(sc), ms), "scalar product", "scales_entries");
 		CHECK(eq(A / sc, md) && eq(A.Division(sc), md), "scalar division", "divides_entries");
 	}
+	for(double sc : {0.0, -0.0})	// the zero scalar keeps the shape
+	{
+		Rows ms(m, std::vector<double>(n));
+		for(int i = 0; i < m; i++)
+			for(int j = 0; j < n; j++) ms[i][j] = sc * a[i][j];
+		CHECK(eq(A * sc, ms) && eq(sc * A, ms) && eq(A.Product(sc), ms), "scalar product by zero", "scales_entries");
+	}
+	// operands whose entries are neighbours (1 to 3 units in the last place apart): their differences are exact
+	{
+		Rows e(m, std::vector<double>(n)), de(m, std::vector<double>(n)), se(m, std::vector<double>(n));
+		for(int i = 0; i < m; i++)
+			for(int j = 0; j < n; j++)
+			{
+				double v = a[i][j];
+				for(int st = 0; st < 1 + (i + 2 * j) % 3; st++) v = std::nextafter(v, ((i + j) & 1) ? INFINITY : -INFINITY);
+				e[i][j] = v; de[i][j] = a[i][j] - v; se[i][j] = a[i][j] + v;
+			}
+		Matrix E(e);
+		CHECK(eq(A.Minus(E), de) && eq(A - E, de), "Minus", "elementwise_difference_of_neighbouring_entries");
+		CHECK(eq(A.Plus(E), se) && eq(A + E, se), "Plus", "elementwise_sum_of_neighbouring_entries");
+		{ Matrix T(A); T -= E; CHECK(eq(T, de), "operator-=", "elementwise_difference_of_neighbouring_entries"); }
+		{ Matrix T(A); T += E; CHECK(eq(T, se), "operator+=", "elementwise_sum_of_neighbouring_entries"); }
+	}
 	// matrix-vector, vector-matrix, outer, dot against row/column matrices
 	std::vector<double> vn(n), vm(m);
 	for(int j = 0; j < n; j++) vn[j] = entry(pb, j, 1, 3);
@@ -181,6 +204,24 @@ static void triple_body(int m, int n, int k, int pa, int pb)
 			std::vector<double> ms(n), md(n);
 			for(int j = 0; j < n; j++) { ms[j] = vn[j] * sc; md[j] = vn[j] / sc; }
 			CHECK(eqv(Vn * sc, ms) && eqv(sc * Vn, ms) && eqv(Vn / sc, md), "Vector scalar", "scales_entries");
+		}
+		for(double sc : {0.0, -0.0})
+		{
+			std::vector<double> ms(n);
+			for(int j = 0; j < n; j++) ms[j] = vn[j] * sc;
+			CHECK(eqv(Vn * sc, ms) && eqv(sc * Vn, ms), "Vector scalar zero", "scales_entries");
+		}
+		{
+			std::vector<double> e(n), de(n), se(n);
+			for(int j = 0; j < n; j++)
+			{
+				double v = vn[j];
+				for(int st = 0; st < 1 + j % 3; st++) v = std::nextafter(v, (j & 1) ? INFINITY : -INFINITY);
+				e[j] = v; de[j] = vn[j] - v; se[j] = vn[j] + v;
+			}
+			Vector E(e), T1(Vn), T2(Vn);
+			T1 -= E; T2 += E;
+			CHECK(eqv(Vn - E, de) && eqv(T1, de) && eqv(Vn + E, se) && eqv(T2, se), "Vector +/-", "elementwise_on_neighbouring_entries");
 		}
 		CHECK(Vn.Size() == (unsigned)n && (Vn == Vector(vn)) && !(Vn == Vector(std::vector<double>(n + 1, 0.0))), "Vector::Size/==", "definition");
 	}
@@ -678,6 +719,28 @@ int main(int argc, char** argv)
 				CHECK(c.Dot(A) == 0 && c.Dot(B) == 0, "Cross", "orthogonal_to_operands");
 				cases++;
 			}
+			// nearly parallel and nearly antiparallel pairs that are not proportional: b = s*a + delta*e_k (all products and
+			// differences below are exact in double), against the definition and against the product [a]_x * b of matrices
+			std::string cfg2 = "cross_nearly_parallel";
+			for(int x = 1; x < 64; x++)
+				for(double sc : {1.0, -2.0, 0.5, -1.0})
+					for(int k = 0; k < 3; k++)
+						for(double delta : {std::ldexp(1.0, -30), -std::ldexp(1.0, -40), std::ldexp(1.0, -26), std::ldexp(3.0, -45)})
+						{
+							std::string cfg = cfg2;
+							double a[3] = {al[x & 3], al[(x >> 2) & 3], al[(x >> 4) & 3]}, b[3] = {sc * a[0], sc * a[1], sc * a[2]};
+							b[k] += delta;
+							Vector A(std::vector<double>(a, a + 3)), B(std::vector<double>(b, b + 3));
+							Vector c = A.Cross(B);
+							double w[3] = {a[1] * b[2] - a[2] * b[1], a[2] * b[0] - a[0] * b[2], a[0] * b[1] - a[1] * b[0]};
+							CHECK(c.Size() == 3 && c[0] == w[0] && c[1] == w[1] && c[2] == w[2], "Cross", "definition_for_nearly_parallel_operands");
+							Matrix S(Rows{{0, -a[2], a[1]}, {a[2], 0, -a[0]}, {-a[1], a[0], 0}});
+							Vector sb = S * B;
+							CHECK(sb[0] == c[0] && sb[1] == c[1] && sb[2] == c[2], "Cross", "equals_skew_matrix_times_column");
+							Vector cr = B.Cross(A);
+							CHECK(cr[0] == -c[0] && cr[1] == -c[1] && cr[2] == -c[2], "Cross", "antisymmetric");
+							cases++;
+						}
 		}
 		mc::count("evaluations", cases);
 		mc::count("distinct_nontrivial", nontrivial);
